@@ -106,6 +106,7 @@ Definition step_spec (g : cfg) (z : sst) (l : label) (o : list out) (sn : snap) 
             (* expiry check due at the expiry, plus grace for client-side refresh *)
             ((e =? 0) || (sn_e sn =? (if z_now z <? e then e else z_now z) + (if c then g_exp_delay g else 0))))
   | LSubscribe b =>
+      if negb (z_auth z) then (z, false) else      (* server-side calls need a registered connection *)
       keep (mkSst (z_now z) false (z_auth z) (z_pinged z) (z_answered z) (z_exp z) (z_csr z) (z_subs z ++ [b]) (z_armed z))
            (outs_eqb o [])
   | LPong =>
@@ -113,13 +114,20 @@ Definition step_spec (g : cfg) (z : sst) (l : label) (o : list out) (sn : snap) 
       then keep (mkSst (z_now z) false (z_auth z) true true (z_exp z) (z_csr z) (z_subs z) (z_armed z)) (outs_eqb o [])
       else keep same (outs_eqb o [OClose 3501])
   | LRefreshCmd e =>
-      if negb (z_csr z) then keep same (outs_eqb o [OClose 3501]) else
+      if negb (z_auth z) then keep same (outs_eqb o [OClose 3501]) else
+      if negb (z_csr z) then
+        match g_refresh g with
+        | RNone => keep same (outs_eqb o [OReply 108])      (* no RefreshHandler: not available *)
+        | _ => keep same (outs_eqb o [OClose 3501])
+        end
+      else
       if e =? 0 then keep same (outs_eqb o [OReply 0]) else
       if z_now z <? e
       then keep (mkSst (z_now z) false (z_auth z) (z_pinged z) (z_answered z) e (z_csr z) (z_subs z) (z_armed z))
                 (outs_eqb o [OReply 0] && (sn_e sn =? e + g_exp_delay g))
       else keep same (outs_eqb o [OReply 110])
   | LSrvRefresh x e =>
+      if negb (z_auth z) then (z, false) else
       if x then keep same (outs_eqb o [OClose 3005]) else
       if e =? 0
       then keep (mkSst (z_now z) false (z_auth z) (z_pinged z) (z_answered z) 0 (z_csr z) (z_subs z) (z_armed z))
@@ -129,6 +137,7 @@ Definition step_spec (g : cfg) (z : sst) (l : label) (o : list out) (sn : snap) 
                 (outs_eqb o [ORefreshPush] && (sn_e sn =? e + g_exp_delay g))
       else keep same (outs_eqb o [OClose 3005])
   | LSubRefreshCmd n e =>
+      if negb (z_auth z) then keep same (outs_eqb o [OClose 3501]) else
       match find (fun b => sb_name b =? n) (z_subs z) with
       | None => keep same (outs_eqb o [OReply 103])
       | Some b =>
